@@ -235,6 +235,18 @@ class IrToPythonCompiler:
             self.emit("x = (x >> amount) | (x << (bits - amount))")
             self.emit("return x & ((1 << bits) - 1)")
 
+        # IEEE-754 float division (python raises ZeroDivisionError):
+        self.emit("@staticmethod")
+        with self.func_def("fdiv(x, y):"):
+            self.emit("if y == 0:")
+            with self.indented():
+                self.emit("if x == 0 or x != x:")
+                with self.indented():
+                    self.emit("return math.nan")
+                self.emit("sign = math.copysign(1.0, x) * math.copysign(1.0, y)")
+                self.emit("return math.copysign(math.inf, sign)")
+            self.emit("return x / y")
+
         with self.func_def("alloca(self, amount):"):
             self.emit("ptr = len(self.stack)")
             self.emit("self.stack.extend(bytes(amount))")
@@ -495,6 +507,8 @@ class IrToPythonCompiler:
         if op in int_ops and ins.ty.is_integer:
             fname = int_ops[op]
             self.emit(f"{ins.name} = {fname}({a}, {b})")
+        elif op == "/" and ins.ty in [ir.f32, ir.f64]:
+            self.emit(f"{ins.name} = rt.fdiv({a}, {b})")
         elif op in shift_ops and ins.ty.is_integer:
             fname = shift_ops[op]
             self.emit(f"{ins.name} = {fname}({a}, {b}, {ins.ty.bits})")
